@@ -2,7 +2,9 @@ package props
 
 import (
 	"context"
+	"encoding/base64"
 	"fmt"
+	"google.golang.org/genproto/googleapis/api/httpbody"
 	"net/http"
 	"os"
 	"os/exec"
@@ -120,7 +122,27 @@ func c14Worlds() []c14World {
 		mk("cget-json-gzip", wire.ConnectGet, "Pure", "json", "gzip", true, echo(`{"name":"z1"}`), nil, small),
 		mk("cunary-json-gzip", wire.ConnectUnary, "Unary", "json", "gzip", true, echo(`{"name":"z2","extraText":"`+strings.Repeat("Z", 200)+`"}`), nil, big),
 	}
-	return []c14World{toGRPC, toConnect, toWeb, toConnectGz}
+	// REST clients whose bodies are google.api.HttpBody payloads (the decoded message's bytes may
+	// alias the pooled buffer the body was read into) toward an uncompressed gRPC target
+	httpBodies := c14World{name: "REST HttpBody bodies (target gRPC/proto, no compression)", cfg: world.Config{Protocols: []vanguard.Protocol{vanguard.ProtocolGRPC}, Codecs: []string{"proto"}, NoCompress: true, MaxMsg: 4000}}
+	restUp := func(name, target, ct, chunk string, n int, reply func(b *world.Backend, r *http.Request) *world.Reply) c14RPC {
+		return c14RPC{name: name, form: wire.REST, closeBody: true, respond: reply, spec: func() *drive.ReqSpec {
+			return &drive.ReqSpec{Method: "POST", Target: target, Header: http.Header{"Content-Type": {ct}, "X-Rpc": {name}}, ContentLength: -2, Body: drive.NewBody([]byte(strings.Repeat(chunk, n)))}
+		}}
+	}
+	hbReply := func(ct, chunk string, n int) func(b *world.Backend, r *http.Request) *world.Reply {
+		return func(b *world.Backend, r *http.Request) *world.Reply {
+			hb := MkMsgOf((&httpbody.HttpBody{}).ProtoReflect().Descriptor(), `{"contentType":"`+ct+`","data":"`+base64.StdEncoding.EncodeToString([]byte(strings.Repeat(chunk, n)))+`"}`)
+			return world.EchoReply(b.Parsed, [][]byte{Enc(b.Parsed.Codec, hb)}, "", nil)
+		}
+	}
+	httpBodies.rpcs = []c14RPC{
+		restUp("rest-raw-upload-a", "/v1/raw", "application/octet-stream", "aaaa-upload.", 25, hbReply("image/png", "AAAA-download.", 20)),
+		restUp("rest-raw-upload-b", "/v1/raw", "text/plain", "bbbbbb-upload.", 60, hbReply("text/plain", "BB.", 5)),
+		restUp("rest-blob-upload", "/v1/blob/f1?num=2", "application/x-thing", "blob!", 70, echo(`{"name":"f1","body":{"contentType":"a/b","data":"`+base64.StdEncoding.EncodeToString([]byte(strings.Repeat("BLOB.", 50)))+`"}}`)),
+		mk("web-json-small", wire.GRPCWeb, "Unary", "json", "", true, echo(`{"name":"h4","extraText":"`+strings.Repeat("h", 300)+`"}`), nil, small),
+	}
+	return []c14World{toGRPC, toConnect, toWeb, toConnectGz, httpBodies}
 }
 
 type c14Outcome struct {
